@@ -67,6 +67,36 @@ class Captured:
         self.opt_calls = []  # (input copy, output) of optimizer.optimize
 
 
+def scope_log(gen, domain):
+    """per rule of this domain (in generation order): the nodes with their status, and which
+    definition (rule index, mode) get_var really resolves each active node to."""
+    keys = [(cell, rule) for cell, rule in gen.ir.expression.integrand.keys() if cell == domain]
+    ids = {}
+    defs = getattr(gen, "_vf_defs", {})
+    rules, resolved = [], []
+    for i, (cell, rule) in enumerate(keys):
+        F = gen.ir.expression.integrand[(cell, rule)]["factorization"]
+        fact = []
+        for _, attr in F.nodes.items():
+            v = attr["expression"]
+            if v._ufl_is_literal_:
+                continue
+            vid = ids.setdefault(v, len(ids))
+            st = {"piecewise": "Piecewise", "varying": "Varying"}.get(attr["status"], "Inactive")
+            fact.append((vid, st))
+            if st != "Inactive":
+                if v in gen.scopes[(cell, rule)]:
+                    who, mode = defs.get(((cell, rule), v), (None, "?"))
+                elif v in gen.scopes[(None, None)]:
+                    who, mode = defs.get(((None, None), v), (None, "?"))
+                else:
+                    who, mode = None, "None"
+                widx = next((j for j, (c2, r2) in enumerate(keys) if r2 is who), -1)
+                resolved.append((i, vid, widx, mode))
+        rules.append(fact)
+    return {"rules": rules, "resolved": resolved}
+
+
 def compile_case(objs, options=None, capture_opt=False, prefix="vf", disable_opt=False):
     """analysis -> IR -> code generation through FFCx's own entry points,
     recording the AST object handed to the formatter for every kernel."""
@@ -90,9 +120,21 @@ def compile_case(objs, options=None, capture_opt=False, prefix="vf", disable_opt
     cap.options = opts
 
     class IG(IntegralGenerator):
+        # the scope log feeds the correspondence check of coq/theories/Scopes.v (C11)
+        def generate_piecewise_partition(self, quadrature_rule, domain):
+            self._vf_cur = quadrature_rule
+            return IntegralGenerator.generate_piecewise_partition(self, quadrature_rule, domain)
+
+        def set_var(self, quadrature_rule, domain, v, vaccess):
+            if not hasattr(self, "_vf_defs"):
+                self._vf_defs = {}
+            self._vf_defs[((domain, quadrature_rule), v)] = (getattr(self, "_vf_cur", None), "Varying" if quadrature_rule is not None else "Piecewise")
+            return IntegralGenerator.set_var(self, quadrature_rule, domain, v, vaccess)
+
         def generate(self, domain):
             parts = IntegralGenerator.generate(self, domain)
-            cap.kernels.append({"kind": "integral", "ir": self.ir, "domain": domain, "ast": parts})
+            cap.kernels.append({"kind": "integral", "ir": self.ir, "domain": domain, "ast": parts,
+                                "scopes": scope_log(self, domain)})
             return parts
 
     class EG(ExpressionGenerator):
